@@ -452,7 +452,12 @@ func (vc *VC) execBuiltin(fr *frame, n *Node, x *ssa.Call, b *ssa.Builtin) {
 		vc.defVal(n, x, cur)
 	case "print", "println", "close", "clear":
 		if b.Name() == "clear" {
-			vc.errorf("clear unsupported")
+			if mt, ok := args[0].Typ.Underlying().(*types.Map); ok {
+				// clear(m): the map object keeps its identity and becomes empty (a nil map stays nil)
+				vc.mapInit(st, mt, args[0].T)
+			} else {
+				vc.errorf("clear of a slice unsupported")
+			}
 		}
 	case "recover":
 		vc.havocVal(n, x, st)
@@ -502,7 +507,7 @@ func (vc *VC) execAppend(fr *frame, n *Node, x *ssa.Call, args []Val) {
 	if isString(t.Typ) {
 		// append([]byte, string...): contents abstract
 		tl = fmt.Sprintf("(strlen %s)", t.T)
-		vc.enc.notes["append([]byte, string...): appended bytes abstract"] = true
+		vc.enc.notes["append([]byte, string...): appended byte k is s[k]"] = true
 	} else {
 		tl = sLen(t.T)
 	}
@@ -532,7 +537,7 @@ func (vc *VC) execAppend(fr *frame, n *Node, x *ssa.Call, args []Val) {
 	case isString(t.Typ):
 		vc.bulkUpdate(st, elem, []bulkCase{
 			vc.rangeCase("true", res, sLen(s.T), newLen, func(j string, path []int, cell types.Type, mem string) string {
-				return e.uf("append.str.byte", []string{"Str", e.I()}, e.sortOf(cell), t.T, e.sub(j, sLen(s.T)))
+				return e.uf("strat", []string{"Str", e.I()}, e.sortOf(cell), t.T, e.sub(j, sLen(s.T)))
 			}), prefix})
 	case single:
 		vc.bulkUpdate(st, elem, []bulkCase{prefix})
